@@ -32,9 +32,24 @@ pub fn compare<T: DeserializeOwned + PartialEq + Debug>(doc: &str, script: &Scri
     }
 }
 
-pub const C14_TARGETS: [&str; 27] = [
+/// items that are lists themselves (xs:list text inside repeated elements) and tuples of three
+#[derive(serde::Deserialize, Debug, PartialEq)]
+pub struct SListOfLists {
+    #[serde(default = "empty_ll")]
+    a: BVec<BVec<String>>,
+    #[serde(default = "empty_t")]
+    b: BVec<(String, String, String)>,
+}
+fn empty_ll() -> BVec<BVec<String>> {
+    BVec(Vec::new())
+}
+fn empty_t() -> BVec<(String, String, String)> {
+    BVec(Vec::new())
+}
+
+pub const C14_TARGETS: [&str; 28] = [
     "SAttr", "SReq", "SLists", "SText", "STextList", "Ch", "SValue", "SValueVec", "SValueTuple", "SValueString", "NStr", "NStruct", "UnitS", "SPrims",
-    "UnitOnly", "SEnumFields", "SNestedSeq", "BVec<Ch>", "BVec<String>", "BVec<Option<String>>", "(String,u8)", "Option<SAttr>", "()", "BMap", "String", "SOptHolder", "SOptValue",
+    "UnitOnly", "SEnumFields", "SNestedSeq", "BVec<Ch>", "BVec<String>", "BVec<Option<String>>", "(String,u8)", "Option<SAttr>", "()", "BMap", "String", "SOptHolder", "SOptValue", "SListOfLists",
 ];
 
 pub fn compare_target(t: usize, doc: &str, script: &Script) -> Result<bool, String> {
@@ -66,6 +81,7 @@ pub fn compare_target(t: usize, doc: &str, script: &Script) -> Result<bool, Stri
         24 => compare::<String>(doc, script),
         25 => compare::<SOptHolder>(doc, script),
         26 => compare::<SOptValue>(doc, script),
+        27 => compare::<SListOfLists>(doc, script),
         _ => Err("bad target".into()),
     }
 }
@@ -209,7 +225,7 @@ pub fn run(ctx: &Ctx) {
     });
 
     let n_deep = n_full + 1;
-    let deep_targets = [0usize, 2, 4, 7, 9, 16, 19, 24];
+    let deep_targets = [0usize, 2, 4, 7, 9, 16, 19, 24, 27];
     ctx.layer("tokens.deeper_piece1_and_7", 1, pow(k, n_deep) * 2, json!({"tokens_exactly": n_deep, "targets": deep_targets.iter().map(|&t| C14_TARGETS[t]).collect::<Vec<_>>(), "schedules": ["pieces of 1", "pieces of 7"]}), |i, acc| {
         let mut d = Vec::new();
         let base = count_upto(k, n_deep - 1);
@@ -301,7 +317,7 @@ fn ns_layer(ctx: &Ctx) {
 fn stretch_layer(ctx: &Ctx) {
     let t = ctx.tier;
     let st = crate::inputs::Stretch::new(crate::inputs::STRETCH_SERDE, t.pick(8, 40), t.pick(12, 16), t.pick(2, 6));
-    let targets = [0usize, 2, 3, 4, 7, 9, 16, 18, 23, 24];
+    let targets = [0usize, 2, 3, 4, 7, 9, 16, 18, 23, 24, 27];
     let pieces: &[usize] = t.pick(&[7usize, 64, 4096][..], &[1usize, 2, 7, 63, 64, 65, 255, 256, 1000, 4096, 8192][..]);
     let mut desc = st.desc.clone();
     desc["targets"] = json!(targets.iter().map(|&t| C14_TARGETS[t]).collect::<Vec<_>>());
